@@ -318,6 +318,12 @@ func runC13(o *Out) {
 			"A": sb.run([]string{"reverse"}, inA, false, true), "B": sb.run([]string{"reverse"}, inB, false, true),
 			"cA": sb.run([]string{"complement"}, inA, false, true), "cB": sb.run([]string{"complement"}, inB, false, true),
 		}
+		if gbRec, err := ioutil.ReadFile("/repo/seqio/testdata/NC_001422_part.gb"); err == nil {
+			auxDir, _ := ioutil.TempDir("", "verif-c13-aux-")
+			scenarioStdinOffset(o, gbRec, auxDir)
+			scenarioInterrupted(o, gbRec)
+			os.RemoveAll(auxDir)
+		}
 		for i, st := range steps {
 			o.Dist["cli-entry-for-other-input"]++
 			got := sb.run(st.args, st.stdin, false, false)
